@@ -268,6 +268,31 @@ def run_ultrametric(ctx, case, rng):
             if got != want:
                 ctx.violation("num_lineages_at|count-differs-from-crossing-edges", "at %r: %r lineages, %r edges cross" % (d, got, want), det)
                 break
+    # ---- the same tree object after its edge lengths were changed: every answer must describe the tree as it is now
+    factor = rng.choice([2, 0.5, 4])
+    core.call(ctx, "scale_edges", tree.scale_edges, factor, detail=det)
+    for d in rng.sample(qs, min(len(qs), 8)):
+        d2 = d * factor
+        want = sum(1 for n in ref.preorder(spec) if pm[id(n)] is not None and rd[id(pm[id(n)])] * factor < d2 <= rd[id(n)] * factor)
+        ok, got = core.call(ctx, "num_lineages_at", tree.num_lineages_at, d2, detail=det)
+        if not dyadic:
+            continue
+        if ok:
+            ctx.ev("lineages-compared")
+            if got != want:
+                ctx.violation("num_lineages_at|stale-after-edge-lengths-changed", "after scale_edges(%r), at %r: %r lineages, %r edges cross" % (factor, d2, got, want), det)
+                break
+    if dyadic:
+        ok, res = core.call(ctx, "calc_node_ages", tree.calc_node_ages, detail=det)
+        if ok:
+            ctx.ev("ages-compared")
+            for n in ref.preorder(spec):
+                if lm[id(n)].age != td[id(n)][0] * factor:
+                    ctx.violation("calc_node_ages|stale-after-edge-lengths-changed", "age %r, distance to tips now %r" % (lm[id(n)].age, td[id(n)][0] * factor), det)
+                    break
+        ok, mx = core.call(ctx, "max_distance_from_root", tree.max_distance_from_root, detail=det)
+        if ok and mx != max(rd.values()) * factor:
+            ctx.violation("max_distance_from_root|stale-after-edge-lengths-changed", "%r, now %r" % (mx, max(rd.values()) * factor), det)
     if len(ref.leaves(spec)) >= 3:
         ctx.nontrivial(("ultra", ref.canon(spec)))
     if case["i"] < 2:
